@@ -138,3 +138,17 @@ class Outcome:
         self.count("case:" + tag)
         if sample is not None and len(self.samples) < 6:
             self.samples.append(sample)
+
+
+_SHARED_IO = []
+
+
+def shared_io():
+    """ONE ChkIo and ONE RichChkIo object serving every decode / encode of a run: the IO objects are stateless
+    by contract, so reusing them (batch processing, decode -> save -> re-read) must give what a fresh object gives"""
+    if not _SHARED_IO:
+        from richchk.io.chk.chk_io import ChkIo
+        from richchk.io.richchk.richchk_io import RichChkIo
+
+        _SHARED_IO.extend([ChkIo(), RichChkIo()])
+    return _SHARED_IO[0], _SHARED_IO[1]
